@@ -5,7 +5,8 @@
    code (logical, block, ifBlock, logicalBlocks, self._actions); [select] walks the chains.
    The flag [fx] selects the repaired code (true) or the pinned code (false):
      - the repaired brace pattern accepts blanks after the left brace of an else line;
-     - the repaired VersionParser._expr always evaluates the right operand.
+     - the repaired VersionParser._expr always evaluates the right operand;
+     - the repaired argument splitter has no special case for a quoted single blank.
    Executable definitions only. *)
 From Eupsv Require Import Base.Base Model.Rx Model.Cond Model.Args Model.Legacy.
 
@@ -146,17 +147,17 @@ Definition step_cmd (r : cmdres) (st : rstate) : res rstate :=
   | CRaise => Err BadTable
   end.
 
-Definition step (top : str) (k : linekind) (st : rstate) : res rstate :=
+Definition step (fx : bool) (top : str) (k : linekind) (st : rstate) : res rstate :=
   match k with
-  | LCmd n a => step_cmd (mk_action top n a) st
+  | LCmd n a => step_cmd (mk_action fx top n a) st
   | LOther l => step_cmd (mk_action_other top l) st
   | _ => Ok (step_brace k st)
   end.
 
-Fixpoint run_lines (top : str) (ks : list linekind) (st : rstate) : res rstate :=
+Fixpoint run_lines (fx : bool) (top : str) (ks : list linekind) (st : rstate) : res rstate :=
   match ks with
   | [] => Ok st
-  | k :: r => bind (step top k st) (run_lines top r)
+  | k :: r => bind (step fx top k st) (run_lines fx top r)
   end.
 
 (* after the loop *)
@@ -165,8 +166,8 @@ Definition finish (st : rstate) : list lbb :=
   ++ (if is_nil (r_chain st) then [] else [r_chain st])
   ++ (if is_nil (r_block st) then [] else [[LLog (r_logical st); LBlk (r_block st); LBlk []]]).
 
-Definition read_blocks (top : str) (ks : list linekind) : res (list lbb) :=
-  bind (run_lines top ks r_init) (fun st => Ok (finish st)).
+Definition read_blocks (fx : bool) (top : str) (ks : list linekind) : res (list lbb) :=
+  bind (run_lines fx top ks r_init) (fun st => Ok (finish st)).
 
 (* ---------------------------------------------------------------- Table.actions *)
 
@@ -195,7 +196,7 @@ Fixpoint select (fx : bool) (e : cenv) (ls : list lbb) : res (list action) :=
 
 (* Table(file, topProduct=top, addDefaultProduct=False) *)
 Definition read_text (fx : bool) (top : str) (text : str) : res (list lbb) :=
-  bind (rewrite (split_lines text)) (fun ls => read_blocks top (map (classify fx) ls)).
+  bind (rewrite (split_lines text)) (fun ls => read_blocks fx top (map (classify fx) ls)).
 
 (* Table(...).actions(flavor, types) *)
 Definition table_actions (fx : bool) (top : str) (text : str) (e : cenv) : res (list action) :=
